@@ -122,7 +122,7 @@ pub fn replay_e2(prop: &str, case: serde_json::Value) -> R<CaseMeta> {
 
 use crate::fault::{run_fault_dyn, FaultCase};
 
-pub const C14_RULE: &str = "fault runs: generated histories of 4-12 ops (put/overwrite/shared content/remove/remove_range/checkpoint/reads; N in {1,2,3,100}; both sync modes); a dry traced run counts the K eligible filesystem calls (mutating calls and fsync/fdatasync) after the store is open; then for EVERY k in 1..=K a fresh worker process runs the whole history with the k-th call failing (EIO, or ENOSPC for write/open/mkdir in 30% of the cases) without side effect; oracle: no panic, no hang (20 s watchdog, confirmed 3x), every op returns; an uncertainty model makes exactly the keys of a failed op {old,new}; every later result, a full read before close, a clean reopen (must succeed) and a full read after it must be consistent with some resolution, all other keys exact. evaluations = fault runs; non-trivial = the fault fired inside an op and >=2 later ops ran; distinct by (history, k, errno)";
+pub const C14_RULE: &str = "fault runs: generated histories of 4-12 ops (put/overwrite/shared content/remove/remove_range/checkpoint/reads; N in {1,2,3,100}; both sync modes); in 60% of the cases a fault-free earlier session first populates the store (so the faulty session continues existing segments / snapshots); a dry traced run counts the K eligible filesystem calls (mutating calls and fsync/fdatasync) after the store is open; then for EVERY k in 1..=K a fresh worker process runs the whole history with the k-th call failing (EIO, or ENOSPC for write/open/mkdir in 30% of the cases) without side effect; oracle: no panic, no hang (20 s watchdog, confirmed 3x), every op returns; an uncertainty model makes exactly the keys of a failed op {old,new}; every later result, a full read before close, a clean reopen (must succeed) and a full read after it must be consistent with some resolution, all other keys exact. evaluations = fault runs; non-trivial = the fault fired inside an op and >=2 later ops ran; distinct by (history, k, errno)";
 
 pub fn run_c14(ctx: &Ctx, acc: &Mutex<Acc>) -> Option<Violation> {
     crate::proc::ensure_shim();
